@@ -42,6 +42,9 @@ COMPARISON_OPERATORS = frozenset((
     'eq', 'ne', 'lt', 'le', 'gt', 'ge', 'is', '<<', '>>', '=', '!=', '<', '<=', '>', '>='
 ))
 
+# Sequence type and single type based expressions, ordered by precedence
+TYPE_EXPRESSIONS = ('instance', 'treat', 'castable', 'cast')
+
 register = XPath2Parser.register
 infix = XPath2Parser.infix
 method = XPath2Parser.method
@@ -228,6 +231,8 @@ def select__for_expression(self: XPathToken, context: ta.ContextType = None) \
 @method('instance', bp=60, label='expression')
 @method('treat', bp=61, label='expression')
 def led__sequence_type_based_expressions(self: XPathToken, left: XPathToken) -> XPathToken:
+    if left.symbol in TYPE_EXPRESSIONS[:TYPE_EXPRESSIONS.index(self.symbol) + 1]:
+        raise self.wrong_syntax()  # non-associative: the operand is an expression of higher precedence
     self.parser.advance('of' if self.symbol == 'instance' else 'as')
     self[:] = left, self.parser.parse_sequence_type()
     return self
@@ -337,6 +342,8 @@ def evaluate__treat_expression(self: XPathToken, context: ta.ContextType = None)
 @method('castable', bp=62, label='expression')
 @method('cast', bp=63, label='expression')
 def led__cast_expressions(self: XPathToken, left: XPathToken) -> XPathToken:
+    if left.symbol in TYPE_EXPRESSIONS[:TYPE_EXPRESSIONS.index(self.symbol) + 1]:
+        raise self.wrong_syntax()  # non-associative: the operand is an expression of higher precedence
     self.parser.advance('as')
     self.parser.expected_next('(name)', ':', 'Q{', message='an EQName expected')
     self[:] = left, self.parser.expression(rbp=85)
